@@ -53,8 +53,9 @@ func (World) Assumptions(string) []string {
 		"Go map iteration inside the syncers (iteration while inserting in processExistingNodes / checkIfSynced, request order, hard cap) decides the number of rounds, the request contents and thereby which per-index network fault hits which request; the verdict does not depend on it but the message trace does, therefore the event log holds only plan-derived lines, source/destination summaries and, in the fault-free arm, the result; in the fault arms whether a given plan ends in nil or in an error may differ between executions, so replay files are re-executed up to 20 times",
 		"liveness is a probe, not a verdict: fault-free arm (one full honest peer, no faults, hard cap >= 5, intercepted-nodes cacher >= 1000 entries / >= 1 MB, <= 60 leaves when the 1 s syncer runs with a hard cap below 100) counts faultfree_runs / faultfree_completed / no_completion_faultfree within 60 simulated seconds",
 		"probe request_larger_than_hard_cap approximates 'hard cap bound' from outside (a request carried more hashes than the cap); rerequested_after_cacher_loss = a hash already saved into the cacher is requested again while not on disk (evicted before use)",
+		"accounts arm: the set of data tries userAccountsSyncer syncs comes from GetAllLeavesOnChannel over the synced main trie; that API logs a storage read error and closes the channel, so after an injected get_error SyncAccounts can return nil without having started a data trie (observed; counted as probe accounts_data_trie_skipped_after_read_error). The statement is about a trie whose sync completed, so in runs where a get_error fired only the main trie is judged; without read errors every data trie named by an account leaf is judged as well",
 		"no torn writes / dirty crashes; the destination is never restarted during a sync",
-		"sensitivity (development time, scratch worktree): see the world's report in the evidence of the mutation wave",
+		"sensitivity (development time, scratch worktree, quick tier, all caught): doubleList syncer not storing leaves; extension node reporting no missing child; trieSyncer returning nil on ErrTimeIsOut; doubleList syncer returning nil on context cancel; branch loadChildren skipping child 16; hard-cap break dropping the node from the frontier; encodeNodeAndCommitToDB swallowing the Put error; getNodeFromStorage taking any cached node when the requested hash is absent; trieSyncer not storing extension nodes; node already in the DB assumed to have a complete sub-trie (needs pre-seed)",
 	}
 }
 
@@ -64,9 +65,9 @@ func (World) Rule(string) string {
 
 func (World) Budget(_ string, tier string) int {
 	if tier == "thorough" {
-		return 5000 * 30
+		return 3600 * 30
 	}
-	return 5000
+	return 3600
 }
 
 // ReplayAttempts: the trace of a run depends on Go map iteration inside the syncers (see Assumptions).
